@@ -139,7 +139,12 @@ def _cases(tier, rng):
                "mode": rng.choice(("fixed", "fixed", "learners", "learners-split", "learners-fixed")),
                # functions whose resources are evaluated per element get one learner per element
                "element_scope": rng.random() < 0.4,
-               "stop_after": rng.choice((None, None, "first", "last"))}
+               "stop_after": rng.choice((None, None, "first", "last")),
+               # an observer of the run (progress tracking) must not change what a piece computes
+               "show_progress": rng.random() < 0.25}
+
+
+_SHOW_PROGRESS = [False]  # set per case by _check
 
 
 def _run_part(p, prog, folder, storage, fixed, first, via_learners=False, rng=None):
@@ -162,7 +167,7 @@ def _run_part(p, prog, folder, storage, fixed, first, via_learners=False, rng=No
             res = None
         else:
             res = p.map(progs.real_inputs(prog), run_folder=folder, parallel=False, storage=storage,
-                        fixed_indices=fixed, cleanup=first, **progs.map_kwargs(prog))
+                        fixed_indices=fixed, cleanup=first, show_progress=_SHOW_PROGRESS[0], **progs.map_kwargs(prog))
     finally:
         progs.set_log(None)
     return res, log
@@ -170,6 +175,7 @@ def _run_part(p, prog, folder, storage, fixed, first, via_learners=False, rng=No
 
 def _check(case):
     prog, ax, storage = case["prog"], case["axis"], case["storage"]
+    _SHOW_PROGRESS[0] = bool(case.get("show_progress"))
     rng = random.Random(case["seed"])
     want, calls = progs.denote(prog)
     call_idx = list(progs.CALL_INDEX)
